@@ -16,6 +16,9 @@ import GnarkVerif.Props.C08_gen_bw6_633_fr
 import GnarkVerif.Props.C08_gen_bls12_377_fp
 import GnarkVerif.Props.C08_gen_bls12_381_fp
 import GnarkVerif.Props.C08_gen_bw6_761_fr
+import GnarkVerif.Props.C08_gen_goldilocks
+import GnarkVerif.Props.C08_gen_koalabear
+import GnarkVerif.Props.C08_gen_babybear
 /-
 C08_gen — tie T for the byte <-> limb conversions of the field packages: every theorem below is about definitions REGENERATED from
 /repo on every run (Gen/Bytes/<Field>.lean by tools/goslp/bytes.go, calling Gen/Limb/<Field>.lean by tools/goslp/limb.go).
